@@ -113,11 +113,11 @@ impl vstd::std_specs::convert::FromSpecImpl<(String, u16)> for TargetAddress {
 //@ end
 
 //@ hint decode_address before `match tag`
-    proof { assert(buf@ =~= b0.subrange(2, b0.len() as int)); }
-//@ end
-
-//@ hint decode_address before `let host = string_from_utf8_ioerr(`
-            proof { assert(buf@.subrange(0, len - 2) =~= b0.subrange(2, len as int)); }
+    proof {
+        assert(buf@ =~= b0.subrange(2, b0.len() as int));
+        // the host field, wherever the body takes it from the remaining buffer
+        if 2 <= len { assert(buf@.subrange(0, len - 2) =~= b0.subrange(2, len as int)); }
+    }
 //@ end
 
 //@ hint decode_address before `buf.get_u16()` nth=0
